@@ -92,7 +92,7 @@ def main():
                 results.append((pid, name, "PATTERN-NOT-FOUND"))
                 continue
             open(fp, "w").write(src.replace(old, new, 1))
-            env = dict(os.environ, VF_REPO=tmp)
+            env = dict(os.environ, VF_REPO=tmp, VF_NO_EVIDENCE="1")
             r = subprocess.run([os.path.join(HERE, "check"), pid, "quick", "--scale", scale, "--no-shrink"],
                                env=env, capture_output=True, text=True)
             buckets = sorted({l.split(" ")[0][7:] for l in r.stdout.splitlines() if l.startswith("bucket=")})
